@@ -88,6 +88,30 @@ def _exec(self, s, st, frame):
         for t in s.targets:
             self.bind(t, v, st, s)
         return st
+    if isinstance(s, ast.AugAssign) and isinstance(s.target, ast.Subscript):
+        # a[[i, j]] op= v : the same update applied to each listed element
+        try:
+            ixv = self.eval(s.target.slice, st)
+        except PathEnd:
+            ixv = None
+        items = None
+        if isinstance(ixv, Tup) and ixv.mutable and 0 < len(ixv.items) <= 4 and all(_asint(i_) is not None for i_ in ixv.items):
+            items = list(ixv.items)
+        elif isinstance(ixv, Const) and isinstance(ixv.v, list) and 0 < len(ixv.v) <= 4 and all(isinstance(i_, int) for i_ in ixv.v):
+            items = [Const(i_) for i_ in ixv.v]
+        if items is not None:
+            for k_, item in enumerate(items):
+                tmp = '__fancy_index_%d' % k_
+                st.env[tmp] = item
+                s2 = ast.AugAssign(target=ast.Subscript(value=s.target.value, slice=ast.Name(id=tmp, ctx=ast.Load()), ctx=ast.Store()),
+                                   op=s.op, value=s.value)
+                ast.copy_location(s2, s)
+                ast.fix_missing_locations(s2)
+                st = _exec(self, s2, st, frame)
+                if st is None:
+                    return None
+                st.env.pop(tmp, None)
+            return st
     if isinstance(s, ast.AugAssign):
         load = ast.copy_location(_as_load(s.target), s.target)
         ast.fix_missing_locations(load)
@@ -360,6 +384,15 @@ def store_subscript(self, t, v, st, node):
                     vs = None
                 if ia is not None and ia.a is not None and vs is not None:
                     new.seg = segmap.setitem(base.seg, ia.a, vs)
+            if base.shape is not None and len(base.shape) == 2 and nv.seg is not None and nv.shape is not None and len(nv.shape) == 1 \
+                    and not isinstance(idx, (Tup, SliceV)) and _asint(idx) is not None:
+                # M[i] = row: every row written carries the same index map along the second axis
+                from . import segmap
+                from .interp_expr import relabel, seg_structure
+                if base.seg is None and (b0.zero or base.zero):
+                    new.seg, new.segax = relabel(segmap.normalise(nv.seg)), 1
+                elif base.seg is not None and base.segax == 1 and seg_structure(base.seg) == seg_structure(nv.seg):
+                    new.seg, new.segax = base.seg, 1
         # write back
         tv = t.value
         if isinstance(tv, ast.Name):
@@ -678,6 +711,13 @@ def iter_elem(self, it, node, loopnode=None):
         t = it.taint if self.loop_taint else frozenset()
         return IntV(Aff.sym(sym) if sym else None, t), n
     if isinstance(it, Opaque) and it.what == 'enumerate':
+        inner = it.args[0]
+        if isinstance(inner, Opaque) and inner.what == 'range' and inner.args[0] is not None and inner.args[2] == 1 and loopnode is not None:
+            # enumerate(range(lo, hi)): the element keeps its loop symbol k, the counter is k - lo
+            fake = ast.copy_location(ast.For(target=ast.Name(id='k', ctx=ast.Store()), iter=ast.Constant(0), body=[], orelse=[]), loopnode)
+            el, n = self.iter_elem(inner, node, fake)
+            if isinstance(el, IntV) and el.a is not None:
+                return Tup([IntV(el.a - inner.args[0], el.taint), el]), n
         el, n = self.iter_elem(it.args[0], node, None)
         Aff.SYM_MIN['enum#'] = 0
         return Tup([IntV(Aff.sym('enum#')), el]), n
